@@ -41,10 +41,11 @@ type Tier struct {
 
 // Unit functions by name.
 var Units = map[string]func(p *load.Program, r *Roles, t Tier) *UnitResult{
-	"loops": func(p *load.Program, r *Roles, t Tier) *UnitResult { return AnalyzeRetryLoops(p, r) },
-	"pool":  func(p *load.Program, r *Roles, t Tier) *UnitResult { return AnalyzePool(p, r, t.Depth) },
-	"store": func(p *load.Program, r *Roles, t Tier) *UnitResult { return AnalyzeStore(p, r, t.Depth) },
-	"flow":  func(p *load.Program, r *Roles, t Tier) *UnitResult { return AnalyzeFlow(p, r, t.Depth) },
+	"loops":  func(p *load.Program, r *Roles, t Tier) *UnitResult { return AnalyzeRetryLoops(p, r) },
+	"access": func(p *load.Program, r *Roles, t Tier) *UnitResult { return AnalyzeAccessors(p, r, t.Depth) },
+	"pool":   func(p *load.Program, r *Roles, t Tier) *UnitResult { return AnalyzePool(p, r, t.Depth) },
+	"store":  func(p *load.Program, r *Roles, t Tier) *UnitResult { return AnalyzeStore(p, r, t.Depth) },
+	"flow":   func(p *load.Program, r *Roles, t Tier) *UnitResult { return AnalyzeFlow(p, r, t.Depth) },
 	"run": func(p *load.Program, r *Roles, t Tier) *UnitResult {
 		res := AnalyzeRun(p, r, t.Depth)
 		return &UnitResult{Col: res.Col, Stats: res.Stats}
@@ -164,6 +165,12 @@ func init() {
 			{"C08.R2@WorkerPool.worker:task-call", 1, "synchronous single call"}, {"C08.R2@WorkerPool.worker:receive", 1, "blocking receive"}, {"C08.R3@package:pool-field-access", 1, "channel ownership"},
 			{"C08.R4@batch|*:pool-size", 1, "pool sized by configuration"}, {"C08.R4@batch|*:item-exec", 1, "exec inside tasks"}, {"C08.R5@batch|*:item-exec", 1, "sequential dispatch"}, {"C08.R6@batch|*:config-read", 1, "configuration read from the node"}},
 		Assumptions: append(append([]string{}, commonAssumptions...), "that the Go scheduler actually runs the c workers in parallel and that blocked user tasks make progress is not decided")})
+	reg(&Prop{ID: "C15", Units: []string{"access"}, Technique: "static analysis: may-panic instruction scan + path-sensitive reflect-precondition check + decision-table extraction compared with the documented table",
+		Explanation: "Every typed accessor of Result and SharedStore (plain, Or, Must, Get, GetOr forms of String/Int/Float64/Bool/Slice/Map), ToSlice, As and the small Result helpers are analysed. (R1) totality: no reachable instruction of a non-Must accessor can panic - no unchecked type assertion, no ==/!= between two interface values, no unguarded index, no explicit panic - and every reflect call's precondition (frozen table) is implied by the path facts. (R2-R5) the accessor is explored path-sensitively with Get/ToSlice summarised as deterministic calls; for every case of the documented decision table (key absent, nil, each of the 12 numeric kinds, string, bool, []any, map[string]any, other slice kinds, other types incl. uintptr/complex) the paths consistent with that case must succeed/fail as documented and return Go's conversion of the asserted value (or the default/zero/panic of the variant); paths outside the table are violations. Store and result accessors are checked against the same table, so they agree. (R6) ToSlice: nil to empty non-nil slice, []any to itself, every other slice to an index-preserving complete copy, anything else to a one-element slice.",
+		CaseRule:    "an obligation instance is one (accessor, table case, abstract path) triple or one static scan; distinct = distinct rule@construct keys",
+		Floors: []Floor{{"C15.R1@*:may-panic", 30, "may-panic scan of every accessor"}, {"C15.R4@*:table", 30, "decision tables of all accessors"}, {"C15.R3@SharedStore.*:table", 12, "store accessors"}, {"C15.R5@*Slice*:table", 5, "slice family"},
+			{"C15.R6@ToSlice:*", 4, "ToSlice cases"}, {"C15.R1@ToSlice:*", 4, "ToSlice reflect preconditions"}},
+		Assumptions: append(append([]string{}, commonAssumptions...), "numeric results of Go's own conversions are the specification; reflect and type-switch semantics are trusted")})
 	reg(&Prop{ID: "C04", Units: []string{"run", "flow"}, Technique: "static analysis: path-sensitive error-provenance (wrap-chain) abstract interpretation over go/ssa",
 		Explanation: lifeExpl + " C04 decides on Run (single and batch paths): nil error iff the path ended in a successful post; every error return that follows a failing callback wraps (fmt.Errorf %w / errors.Join / identity) that callback's own error term, and no further phase callback is invoked after it.",
 		CaseRule:    "an obligation instance is one (abstract path, return or call site) pair; distinct = distinct rule@construct keys",
